@@ -202,7 +202,7 @@ def __init__(self, env, flow, cc, element_id=None, rtt_estimate=1.0, debug=False
     self.debug = debug
 ''')
 
-spec('TCPPacketGenerator', 'run', what='new segment only while next_seq + MSS <= min(buffered, last_ack + cwnd): MSS-sized, '
+spec('TCPPacketGenerator', 'run', what='application data fetched until a full segment is buffered (or the flow is exhausted); new segment only while next_seq + MSS <= min(buffered, last_ack + cwnd): MSS-sized, '
                                        'numbered next_seq, remembered, sent once, next_seq advanced, timer armed with the '
                                        'current RTO calling timeout_callback(id); otherwise wait for a window token')('''
 def run(self, env):
@@ -211,7 +211,7 @@ def run(self, env):
     while self.flow.finish_time is None or env.now < self.flow.finish_time:
         if self.flow.size is not None and self.next_seq >= self.flow.size:
             return
-        while self.next_seq >= self.send_buffer:
+        while self.send_buffer < self.next_seq + self.mss and (self.flow.size is None or self.send_buffer < self.flow.size):
             if self.flow.arrival_dist:
                 wait_time = self.flow.arrival_dist() - (self.env.now - self.last_arrival)
                 if wait_time > 0:
@@ -237,10 +237,11 @@ def run(self, env):
             yield self.cwnd_avaialbe.get()
 ''')
 
-spec('TCPPacketGenerator', 'timeout_callback', what='timeout: cwnd rule, double the sender\'s RTO and re-arm the segment\'s timer with it, then '
+spec('TCPPacketGenerator', 'timeout_callback', what='timeout: cwnd rule, fast recovery is over (duplicate count reset), double the sender\'s RTO and re-arm the segment\'s timer with it, then '
                                                     'retransmit the segment (the ACK may come back synchronously and remove the timer) - on every path')('''
 def timeout_callback(self, packet_id):
     self.congestion_control.timer_expired()
+    self.dupack = 0
     self.rto *= 2
     self.timers[packet_id].restart(self.rto)
     self.resend_packet(packet_id)
